@@ -312,6 +312,38 @@ pub fn stress_inputs() -> Vec<(String, String)> {
         add(&format!("many-labels-{}", n), (0..n).map(|i| format!("l{}: nop\n", i)).collect::<String>());
         add(&format!("many-operands-{}", n), format!(".db {}", vec!["1"; n].join(",")));
     }
+    // chains of binary operators: the expression tree is as deep as the chain is long
+    for n in [300usize, 3000, 100_000, 1_000_000] {
+        for (tag, op) in [("sum", "+1"), ("product", "*1"), ("or", "|1"), ("logical-and", "&&1"), ("shift", "<<0"), ("compare", "==1"), ("mixed", "+1*1-1")] {
+            if n >= 100_000 && tag != "sum" && tag != "mixed" {
+                continue;
+            }
+            add(&format!("operator-chain-{}-{}", tag, n), format!(".dw 1{}", op.repeat(n / (op.len() / 2))));
+        }
+        add(&format!("operator-chain-in-instruction-{}", n), format!("ldi r16, 0{}", "+0".repeat(n)));
+        add(&format!("operator-chain-in-if-{}", n), format!(".if 0{}
+nop
+.endif", "+0".repeat(n)));
+        add(&format!("operator-chain-in-equ-{}", n), format!(".equ oc = 0{}
+.dw oc", "+0".repeat(n)));
+        add(&format!("operator-chain-in-untaken-if-{}", n), format!(".if 0
+.dw 0{}
+.endif", "+0".repeat(n)));
+        add(&format!("operator-chain-as-macro-argument-{}", n), format!(".macro mm
+.dw @0
+.endm
+mm 0{}", "+0".repeat(n)));
+        add(&format!("operator-chain-many-operands-{}", n), format!(".db {}", vec!["1+1"; n.min(100_000)].join(",")));
+    }
+    // evaluation depth = symbol nesting × operator chain (symbol first: it is the deepest leaf of the left-deep tree)
+    for (syms, ops) in [(8usize, 100usize), (30, 250), (99, 250), (30, 120)] {
+        let mut sdef = String::new();
+        for i in 0..syms {
+            sdef.push_str(&format!(".equ dc{} = dc{}{}\n", i, i + 1, "+1".repeat(ops)));
+        }
+        sdef.push_str(&format!(".equ dc{} = 1\n.dw low(dc0)", syms));
+        add(&format!("equ-chain-{}-symbols-x-{}-binary-operators", syms, ops), sdef);
+    }
     // nesting hidden behind a comment character that is inside a string or character literal
     for n in [3000usize, 30000] {
         add(&format!("deep-parentheses-{}-after-semicolon-in-string", n), format!(".db \";\", {}1{}", "(".repeat(n), ")".repeat(n)));
